@@ -9274,21 +9274,25 @@ let script_validate line =
               (XO (XO (XO (XO XH)))))) :: ((Npos (XO (XI (XO (XO (XO (XI
               XH))))))) :: ((Npos (XI (XO (XO (XO (XO (XI XH))))))) :: ((Npos
               (XO (XO (XI (XO (XO (XI XH))))))) :: [])))))))))
-       else if contains ((Npos (XI (XI (XI (XI (XI XH)))))) :: ((Npos (XI (XI
-                 (XI (XI (XI XH)))))) :: [])) line
-            then VRInvalid None
-            else if ends_with line (Npos (XO (XO (XI (XI (XI (XO XH)))))))
-                 then VRIncomplete
-                 else if contains ((Npos (XI (XI (XI (XI (XO (XI
-                           XH))))))) :: ((Npos (XI (XI (XO (XI (XO (XI
-                           XH))))))) :: [])) line
-                      then VRValid (Some ((Npos (XO (XO (XO (XO (XO
-                             XH)))))) :: ((Npos (XO (XI (XI (XO (XO (XI
-                             XH))))))) :: ((Npos (XI (XO (XO (XI (XO (XI
-                             XH))))))) :: ((Npos (XO (XI (XI (XI (XO (XI
-                             XH))))))) :: ((Npos (XI (XO (XI (XO (XO (XI
-                             XH))))))) :: []))))))
-                      else VRValid None
+       else if contains ((Npos (XO (XI (XI (XI (XI (XI XH))))))) :: ((Npos
+                 (XO (XI (XI (XI (XI (XI XH))))))) :: [])) line
+            then VRInvalid (Some [])
+            else if contains ((Npos (XI (XI (XI (XI (XI XH)))))) :: ((Npos
+                      (XI (XI (XI (XI (XI XH)))))) :: [])) line
+                 then VRInvalid None
+                 else if ends_with line (Npos (XO (XO (XI (XI (XI (XO
+                           XH)))))))
+                      then VRIncomplete
+                      else if contains ((Npos (XI (XI (XI (XI (XO (XI
+                                XH))))))) :: ((Npos (XI (XI (XO (XI (XO (XI
+                                XH))))))) :: [])) line
+                           then VRValid (Some ((Npos (XO (XO (XO (XO (XO
+                                  XH)))))) :: ((Npos (XO (XI (XI (XO (XO (XI
+                                  XH))))))) :: ((Npos (XI (XO (XO (XI (XO (XI
+                                  XH))))))) :: ((Npos (XO (XI (XI (XI (XO (XI
+                                  XH))))))) :: ((Npos (XI (XO (XI (XO (XO (XI
+                                  XH))))))) :: []))))))
+                           else VRValid None
 
 (** val msg_unclosed : n -> str **)
 
